@@ -110,4 +110,33 @@ h_mk_ghost(void)
 	g_http_fe_i = nondet_size_t();
 	g_http_fe_j = nondet_size_t();
 }
+
+/* observation of a step's outcome (harness-level statement of C08; the same facts are in the step contracts) */
+struct h_obs {
+	unsigned ncb, ncancel, ndie;
+	size_t max;
+};
+
+static struct h_obs
+h_before(struct http_cookie * H)
+{
+	struct h_obs o;
+
+	g_http_envfail = 0;
+	o.ncb = g_http_ncb; o.ncancel = g_http_ncancel; o.ndie = g_http_ndie; o.max = H->res_bodylen_max;
+	return (o);
+}
+
+#define H_ENDED(o) (g_http_ncancel != (o).ncancel)
+/* C08: at most one callback, exactly one cancel when the request ended, response contract */
+#define H_CHECK_C08(o, rc) do { \
+	__CPROVER_assert(g_http_ncancel == (o).ncancel || g_http_ncancel == (o).ncancel + 1, "C08: the request is cancelled at most once"); \
+	__CPROVER_assert(g_http_ncb == (o).ncb || (g_http_ncb == (o).ncb + 1 && H_ENDED(o)), "C08: at most one callback, and only when the request ends"); \
+	__CPROVER_assert(!H_ENDED(o) || g_http_ncb == (o).ncb + 1 || ((rc) == -1 && g_http_ndie == (o).ndie + 1), "C08: a request ends with exactly one callback (or die() = -1 after an allocation failure)"); \
+	__CPROVER_assert(!(H_ENDED(o) && g_http_ncb == (o).ncb + 1 && !g_http_cb_null) || \
+	    (g_http_cb_status >= 100 && g_http_cb_status <= 599), "C08: status handed to the caller is in 100..599"); \
+	__CPROVER_assert(!(H_ENDED(o) && g_http_ncb == (o).ncb + 1 && !g_http_cb_null) || \
+	    (g_http_cb_bodylen == SIZE_MAX ? g_http_cb_body == NULL : g_http_cb_bodylen <= (o).max), "C08: body <= limit, or (size_t)(-1) and no buffer"); \
+	__CPROVER_assert(H_ENDED(o) || (rc) == 0, "C08: a continuing step returns 0"); \
+} while (0)
 #endif /* !HTTP_H_H_ */
